@@ -46,9 +46,36 @@ impl Pool {
         for k in 0..tasks.len() {
             per[k % n].push(k);
         }
+        // stall watchdog: a worker that produces no result for a long time (a subject that
+        // deadlocks inside the worker's single-threaded runtime, say) is killed, which ends its
+        // reader with "worker process ended"; the check then fails as a machinery error instead
+        // of hanging
+        let stall_s: u64 = std::env::var("TCSS_TASK_STALL_S").ok().and_then(|s| s.parse().ok()).unwrap_or(3600);
+        let pids: Vec<u32> = self.workers.iter().map(|w| w.0.id()).collect();
+        let now = || std::time::SystemTime::now().duration_since(std::time::UNIX_EPOCH).map(|d| d.as_secs()).unwrap_or(0);
+        let progress: Vec<std::sync::atomic::AtomicU64> = (0..n).map(|_| std::sync::atomic::AtomicU64::new(now())).collect();
+        let busy: Vec<std::sync::atomic::AtomicBool> = per.iter().map(|p| std::sync::atomic::AtomicBool::new(!p.is_empty())).collect();
+        let all_done = std::sync::atomic::AtomicBool::new(false);
         std::thread::scope(|sc| {
+            let (progress, busy, all_done) = (&progress, &busy, &all_done);
+            sc.spawn(move || {
+                use std::sync::atomic::Ordering::SeqCst;
+                while !all_done.load(SeqCst) {
+                    std::thread::sleep(std::time::Duration::from_millis(500));
+                    let t = now();
+                    for (w, pid) in pids.iter().enumerate() {
+                        if busy[w].load(SeqCst) && t.saturating_sub(progress[w].load(SeqCst)) > stall_s {
+                            eprintln!("MACHINERY-ERROR: worker {pid} produced no result for {stall_s} s: killed");
+                            unsafe {
+                                libc::kill(*pid as i32, libc::SIGKILL);
+                            }
+                            progress[w].store(t, SeqCst);
+                        }
+                    }
+                }
+            });
             let mut handles = vec![];
-            for ((_, stdin, stdout), idxs) in self.workers.iter_mut().zip(per.iter()) {
+            for (wi, ((_, stdin, stdout), idxs)) in self.workers.iter_mut().zip(per.iter()).enumerate() {
                 let h = sc.spawn(move || {
                     let mut out: Vec<(usize, Result<Value, String>)> = vec![];
                     // writer and reader run concurrently so neither pipe can fill up
@@ -72,7 +99,9 @@ impl Pool {
                                     Err(e) => out.push((k, Err(format!("bad worker output: {e}")))),
                                 },
                             }
+                            progress[wi].store(now(), std::sync::atomic::Ordering::SeqCst);
                         }
+                        busy[wi].store(false, std::sync::atomic::Ordering::SeqCst);
                         let _ = w.join();
                     });
                     out
@@ -86,6 +115,7 @@ impl Pool {
                     }
                 }
             }
+            all_done.store(true, std::sync::atomic::Ordering::SeqCst);
         });
         results
             .into_iter()
